@@ -71,7 +71,7 @@ ObsOK(e) ==
     /\ \A s \in DOMAIN e.s : slot'[s] = e.s[s]
     /\ \A x \in DOMAIN e.t : tmp'[x] = TmpOf(e.t[x])
     /\ ResEq(res'[e.p], e.r)
-    /\ e.o = (IF e.g = "dl" THEN last'[e.p] ELSE "")
+    /\ e.o = (IF e.k = "step" /\ e.g = "dl" THEN last'[e.p] ELSE "")
     /\ e.x = 0
 
 Bound(e) ==
